@@ -306,9 +306,21 @@ Section VExpr.
 (* leaf bvs e e': the pair (e, e') is accepted although the nodes differ; bvs
    are the comprehension targets in scope *)
 Variable leaf : vars -> expr -> expr -> bool.
+(* known_bool bvs c = Some t: c is known to evaluate to t without touching the
+   store (a conditional expression with such a condition is its branch) *)
+Variable known_bool : vars -> expr -> option bool.
 
 Fixpoint vexpr (bvs : vars) (e e' : expr) {struct e} : bool :=
   leaf bvs e e' ||
+  (match e with
+   | EIf c a b =>
+       match known_bool bvs c with
+       | Some true => vexpr bvs a e'
+       | Some false => vexpr bvs b e'
+       | None => false
+       end
+   | _ => false
+   end) ||
   (let vs := fix go (l m : list expr) : bool :=
        match l, m with
        | [], [] => true
@@ -398,9 +410,10 @@ Definition vgens (elt elt' : expr) : vars -> list (pat * expr) -> list (pat * ex
 End VExpr.
 
 Definition no_leaf (_ : vars) (_ _ : expr) : bool := false.
+Definition no_kb (_ : vars) (_ : expr) : option bool := None.
 
 (* structural (syntactic) equality *)
-Definition expr_eqb : expr -> expr -> bool := vexpr no_leaf [].
+Definition expr_eqb : expr -> expr -> bool := vexpr no_leaf no_kb [].
 
 Fixpoint stmt_eqb (a b : stmt) {struct a} : bool :=
   let bs := fix go (l m : list stmt) : bool :=
@@ -412,7 +425,7 @@ Fixpoint stmt_eqb (a b : stmt) {struct a} : bool :=
   match a, b with
   | SAssign p e, SAssign p' e' => pat_eqb p p' && expr_eqb e e'
   | SIndexAssign x idx e, SIndexAssign x' idx' e' =>
-      String.eqb x x' && vexprs no_leaf [] idx idx' && expr_eqb e e'
+      String.eqb x x' && vexprs no_leaf no_kb [] idx idx' && expr_eqb e e'
   | SIf1 c body, SIf1 c' body' => expr_eqb c c' && bs body body'
   | SIf c t f, SIf c' t' f' => expr_eqb c c' && bs t t' && bs f f'
   | SWhile c body, SWhile c' body' => expr_eqb c c' && bs body body'
